@@ -37,6 +37,7 @@ int muggle_path_abspath(const char *path, char *ret, unsigned int size)
 		}
 
 		strncpy(ret, path, size - 1);
+		ret[size - 1] = '\0';
 		return MUGGLE_OK;
 	}
 
